@@ -14,7 +14,7 @@ def _b(r):
     return r if isinstance(r, z3.BoolRef) else z3.BoolVal(bool(r))
 
 
-def _contract(h, s, name, cls, reverse=False):
+def _contract(h, s, name, cls, reverse=False, allow_empty=False):
     ins = INS[h.ctx.choose(len(INS), name + ".in")]
     outs = OUTS[h.ctx.choose(len(OUTS), name + ".out")]
     if set(ins) & set(outs):
@@ -23,7 +23,8 @@ def _contract(h, s, name, cls, reverse=False):
     c = Obj(cls, h.ctx)
     c.attrs["inputvars"] = PList([s.var(v) for v in ins], h.ctx)
     c.attrs["outputvars"] = PList([s.var(v) for v in outs], h.ctx)
-    c.attrs["a"] = s.termlist([s.term(name + "_a%d" % i, ["x"], allow_empty=False) for i in range(na)])
+    # (allow_empty: an assumption may be a constraint without variables, 0 <= c - legal, and written as an empty coefficient map)
+    c.attrs["a"] = s.termlist([s.term(name + "_a%d" % i, ["x"], allow_empty=allow_empty) for i in range(na)])
     c.attrs["g"] = s.termlist([s.term(name + "_g0", ["x", "z"], allow_empty=False, reverse=reverse)])
     return c, ins, outs
 
@@ -121,7 +122,7 @@ def c_machine_dict(h):
     s = S(h)
     mod = h.I.load_module(PIC)
     cls = mod.ns["PolyhedralIoContract"]
-    c, ci, co = _contract(h, s, "c", cls)
+    c, ci, co = _contract(h, s, "c", cls, allow_empty=True)
     if c is None:
         return
     out = h.call(h.method(c, "to_machine_dict"), [])
@@ -136,7 +137,7 @@ def c_machine_dict(h):
         return
     h.frame_ok(out, "C13.frame")
     back = h.call(h.I.getattr(cls, "from_dict"), [d], {"simplify": False})
-    h.check("C14.from_dict.accepts_own_output", back.kind == "return", "from_dict(to_machine_dict(c)) raised %s at %s" % (back.exc_name, back.where))
+    h.check("C10.machine_dict.from_dict_accepts_own_output", back.kind == "return", "from_dict(to_machine_dict(c)) raised %s at %s" % (back.exc_name, back.where))
     if back.kind != "return":
         return
     r = back.value
